@@ -121,6 +121,11 @@ func checkUniverse(c *core.Ctx, corpus string, u *gengotypes.Universe, pkgPaths 
 			continue
 		}
 		scope := p.Pkg().Scope()
+		firstKind, firstAnswer := "", ""
+		if i := strings.Index(corpus, "-first:"); i >= 0 {
+			firstKind = corpus[i+len("-first:"):]
+			firstAnswer = askAbout(firstKind, u, p)
+		}
 		// predeclared (universe) names are not members of the package unless it declares them itself
 		for _, n := range types.Universe.Names() {
 			c.Trans(1)
@@ -337,6 +342,11 @@ func checkUniverse(c *core.Ctx, corpus string, u *gengotypes.Universe, pkgPaths 
 				locationChecks(c, cs, u, p, scope, path)
 			}()
 		}
+		if firstKind != "" {
+			if again := askAbout(firstKind, u, p); again != firstAnswer {
+				c.Fail("C13-answer-depends-on-what-was-asked-before", cs, "%s: %s, asked as the very first question about the package after loading, answered\n%s\nasked again after every other accessor was used it answers\n%s", path, firstKind, firstAnswer, again)
+			}
+		}
 		c.State(fmt.Sprintf("%s|t%d c%d f%d m%d i%d", corpus, len(wantT), len(wantC), len(wantF), nMeth, len(wantImp)))
 		if len(wantT)+len(wantC)+len(wantF) > 0 {
 			c.Nontrivial(fmt.Sprint(corpus, path, def, pol))
@@ -382,6 +392,90 @@ func locationChecks(c *core.Ctx, cs Case, u *gengotypes.Universe, p gengotypes.P
 			}
 		}
 	}
+}
+
+// firstQueryKinds: the accessor that is asked FIRST about every package of a freshly loaded universe
+// (corpus "synthetic-first:<kind>"); its answers are compared with what the same accessor says once
+// everything else was asked (an answer must not depend on what was asked before)
+var firstQueryKinds = []string{"MethodsOf", "Types", "Constants", "Functions", "Type", "Constant", "Function", "Imports", "Doc", "Comment", "SourceDir", "LocateInPackage"}
+
+func askAbout(kind string, u *gengotypes.Universe, p gengotypes.Package) (out string) {
+	defer func() {
+		if x := recover(); x != nil {
+			out = fmt.Sprintf("PANIC: %v", x)
+		}
+	}()
+	scope := p.Pkg().Scope()
+	var b strings.Builder
+	keys := func(n int, name func(i int) string) {
+		var ks []string
+		for i := 0; i < n; i++ {
+			ks = append(ks, name(i))
+		}
+		sort.Strings(ks)
+		b.WriteString(strings.Join(ks, ","))
+	}
+	switch kind {
+	case "Types":
+		var ks []string
+		for k := range p.Types() {
+			ks = append(ks, k)
+		}
+		keys(len(ks), func(i int) string { return ks[i] })
+	case "Constants":
+		var ks []string
+		for k := range p.Constants() {
+			ks = append(ks, k)
+		}
+		keys(len(ks), func(i int) string { return ks[i] })
+	case "Functions":
+		var ks []string
+		for k := range p.Functions() {
+			ks = append(ks, k)
+		}
+		keys(len(ks), func(i int) string { return ks[i] })
+	case "Imports":
+		var ks []string
+		for k := range p.Imports() {
+			ks = append(ks, k)
+		}
+		keys(len(ks), func(i int) string { return ks[i] })
+	case "SourceDir":
+		b.WriteString(p.SourceDir())
+	default:
+		for _, n := range scope.Names() {
+			o := scope.Lookup(n)
+			switch kind {
+			case "MethodsOf":
+				if tn, ok := o.(*types.TypeName); ok && !tn.IsAlias() {
+					if named, ok := tn.Type().(*types.Named); ok {
+						fmt.Fprintf(&b, "%s:%v/%v;", n, methodNames(p.MethodsOf(named, true)), methodNames(p.MethodsOf(named, false)))
+					}
+				}
+			case "Type":
+				fmt.Fprintf(&b, "%s:%v;", n, p.Type(n) != nil)
+			case "Constant":
+				fmt.Fprintf(&b, "%s:%v;", n, p.Constant(n) != nil)
+			case "Function":
+				fmt.Fprintf(&b, "%s:%v;", n, p.Function(n) != nil)
+			case "Doc":
+				if o.Pos().IsValid() {
+					tags, doc := p.Doc(o.Pos())
+					fmt.Fprintf(&b, "%s:%v|%q;", n, len(tags), doc)
+				}
+			case "Comment":
+				if o.Pos().IsValid() {
+					fmt.Fprintf(&b, "%s:%q;", n, p.Comment(o.Pos()))
+				}
+			case "LocateInPackage":
+				if o.Pos().IsValid() {
+					lp := u.LocateInPackage(o.Pos())
+					fmt.Fprintf(&b, "%s:%v;", n, lp == p)
+				}
+			}
+		}
+	}
+	return b.String()
 }
 
 func classTables(kind string) string {
@@ -606,6 +700,10 @@ func run(c *core.Ctx) {
 		jobs = []job{{"synthetic", 0, nil}, {"real", 0, nil}}
 	}
 	jobs = append(jobs, job{"std-small", 0, nil}, job{"synthetic-twin", 0, nil})
+	for _, k := range firstQueryKinds {
+		jobs = append(jobs, job{"synthetic-first:" + k, 0, nil})
+	}
+	c.Bound("first_question_about_every_package_of_a_fresh_universe", firstQueryKinds)
 	c.Bound("universe_loads", len(jobs))
 	nReal := 0
 	for _, j := range jobs {
@@ -615,6 +713,13 @@ func run(c *core.Ctx) {
 		seamctl.Set(j.def, j.pol)
 		var u *gengotypes.Universe
 		var paths []string
+		if strings.HasPrefix(j.corpus, "synthetic-first:") {
+			if u, paths := loadSynthetic(c); u != nil {
+				c.Trace(1)
+				checkUniverse(c, j.corpus, u, paths, j.def, j.pol, "")
+			}
+			continue
+		}
 		switch j.corpus {
 		case "synthetic-twin":
 			checkTwin(c, j.def, j.pol, "")
@@ -661,6 +766,12 @@ func replay(c *core.Ctx, raw json.RawMessage) {
 	var paths []string
 	if strings.HasPrefix(cs.Corpus, "synthetic-twin") {
 		checkTwin(c, cs.Def, cs.Policy, cs.Pkg)
+		return
+	}
+	if strings.HasPrefix(cs.Corpus, "synthetic-first:") {
+		if u, paths := loadSynthetic(c); u != nil {
+			checkUniverse(c, cs.Corpus, u, paths, cs.Def, cs.Policy, cs.Pkg)
+		}
 		return
 	}
 	switch cs.Corpus {
